@@ -418,16 +418,10 @@ Section Soundness.
         rewrite (stack_eqb_eq _ _ Eab). apply sabs_weaken. exact P2.
       + eapply safe_weaken; [exact (call_sound f m r x sa v1 _ IH Ca V1 Hok3 Hs3)|].
         intros s' [P1 P2]. split; [exact P1|]. apply sabs_weaken. exact P2.
-    - (* int.to.chr$ *)
-      destruct s as [|x r]; cbn in C; try discriminate C; destruct x as [|zk| | |]; cbn in C; try discriminate C. cond C.
-      pop1 Hs v1 l1 E1 V1 Hs1. assert (v1 = VInt zk) by (inversion V1; reflexivity). subst v1.
-      cbn [Bst.builtin_step]. rewrite (pop_cons _ _ _ E1). cbn [bind].
-      apply Z.leb_le in H, H0.
-      assert (X1 : (zk <? -2147483648) = false) by (apply Z.ltb_ge; lia).
-      assert (X2 : (2147483647 <? zk) = false) by (apply Z.ltb_ge; lia).
-      assert (X3 : (zk <? 0) = false) by (apply Z.ltb_ge; lia).
-      assert (X4 : (1114111 <? zk) = false) by (apply Z.ltb_ge; lia).
-      rewrite X1, X2, X3, X4. cbn. fin.
+    - (* int.to.chr$ *) destruct s as [|x r]; cbn in C; try discriminate C;
+    pop1 Hs v1 l1 E1 V1 Hs1;
+    cbn [Bst.builtin_step]; rewrite (pop_cons _ _ _ E1); cbn [bind]. cond C. as_int V1 B. cbn.
+      destruct ((z <? 0) || (1114111 <? z))%bool; cbn; fin.
     - (* int.to.str$ *) destruct s as [|x r]; cbn in C; try discriminate C;
     pop1 Hs v1 l1 E1 V1 Hs1;
     cbn [Bst.builtin_step]; rewrite (pop_cons _ _ _ E1); cbn [bind]. cond C. as_int V1 B. cbn. fin.
@@ -621,14 +615,4 @@ Proof.
   - intros key name v. unfold frame. rewrite He. cbn. discriminate.
   - rewrite Hb. constructor.
   - discriminate.
-Qed.
-
-(* int.to.chr$ is the one built-in where an integer operand can raise a foreign exception *)
-Lemma int_to_chr_overflow fmt_name cw rec wh st z r : st_stack st = VInt z :: r ->
-  (z < -2147483648 \/ 2147483647 < z) -> builtin_step fmt_name cw rec wh B_int_to_chr st = Crash.
-Proof.
-  intros H Hz. cbn. rewrite (pop_cons _ _ _ H). cbn.
-  destruct Hz as [Hz|Hz].
-  - apply Z.ltb_lt in Hz. rewrite Hz. reflexivity.
-  - apply Z.ltb_lt in Hz. rewrite Hz. rewrite orb_true_r. reflexivity.
 Qed.
